@@ -815,12 +815,40 @@ impl DynCheck for Sweep {
 
 /// Helper for sweeps: evaluate one case with panic capture; record failure.
 /// Returns false when an *unlisted* violation was recorded.
+fn crash_guard_on() -> bool {
+    static ON: std::sync::OnceLock<bool> = std::sync::OnceLock::new();
+    *ON.get_or_init(|| std::env::var("JV_CRASH_GUARD").is_ok())
+}
+
+thread_local! {
+    static SWEEP_CRASH: RefCell<Option<(&'static str, std::fs::File)>> = RefCell::new(None);
+}
+
 pub fn sweep_case<C: Serialize>(
     rec: &Recorder,
     check: &'static str,
     case: &C,
     f: impl FnOnce() -> CaseResult,
 ) -> bool {
+    // crash guard (see Prop::run): name the running case in a per-thread file
+    if crash_guard_on() {
+        use std::io::{Seek, Write};
+        SWEEP_CRASH.with(|c| {
+            let mut c = c.borrow_mut();
+            if c.as_ref().map_or(true, |(n, _)| *n != check) {
+                let dir = format!("{VERIF_DIR}/.work/crash");
+                let _ = std::fs::create_dir_all(&dir);
+                let tid = format!("{:?}", std::thread::current().id()).replace(|ch: char| !ch.is_ascii_alphanumeric(), "");
+                *c = std::fs::OpenOptions::new().create(true).write(true).truncate(true).open(format!("{dir}/{check}-sweep-{tid}.json")).ok().map(|f| (check, f));
+            }
+            if let Some((_, f)) = c.as_mut() {
+                let doc = json!({"property": rec.property, "check": check, "sig": "process-crash", "msg": "the process died while running this case", "case": serde_json::to_value(case).unwrap_or(Value::Null)}).to_string();
+                let _ = f.seek(std::io::SeekFrom::Start(0));
+                let _ = f.write_all(doc.as_bytes());
+                let _ = f.set_len(doc.len() as u64);
+            }
+        });
+    }
     let r = match guard(check, f) {
         Ok(r) => r,
         Err(mut f) => {
